@@ -33,6 +33,9 @@ pub struct Case {
     pub spoofs: Vec<Spoof>,
     /// where in the header list each spoof is inserted (monotone index map)
     pub positions: Vec<u16>,
+    /// afterwards, on ONE keep-alive connection: a request, then the latched key is replaced by this one, then the request again
+    #[serde(default)]
+    pub rotate_to: Option<(String, String)>,
 }
 
 fn spoof() -> impl Strategy<Value = Spoof> {
@@ -83,9 +86,9 @@ pub fn strategy(spoof_range: std::ops::Range<usize>, key_prob: f64) -> impl Stra
         exempt_or(Just(gen::GUrl { path: String::new(), query: None })),
         prop::collection::vec(spoof(), spoof_range),
         prop::collection::vec(any::<u16>(), 8),
-        crate::props::c04::query(),
+        (crate::props::c04::query(), prop::option::weighted(0.2, (crate::props::c04::guid(), crate::props::c04::key_hex()))),
     )
-        .prop_map(|((dest, uid_sel, root), helper_sel, key, mut req, (exempt_method, exempt_url), spoofs, positions, rich_query)| {
+        .prop_map(|((dest, uid_sel, root), helper_sel, key, mut req, (exempt_method, exempt_url), spoofs, positions, (rich_query, rotate_to))| {
             if let Some(m) = exempt_method {
                 req.method = m.to_string();
                 req.url = exempt_url;
@@ -99,12 +102,12 @@ pub fn strategy(spoof_range: std::ops::Range<usize>, key_prob: f64) -> impl Stra
                     req.url.query = rich_query;
                 }
             }
-            Case { rec: Rec { uid_sel, helper_sel, is_root: root.unwrap_or(uid_sel == 0), dest }, key, req, spoofs, positions }
+            Case { rec: Rec { uid_sel, helper_sel, is_root: root.unwrap_or(uid_sel == 0), dest }, key, req, spoofs, positions, rotate_to }
         })
 }
 
 pub const RULE_C05: &str = "generator: attributed, authorised requests (IMDS from root and non-root callers with the elevation flag following the uid or set independently; WireServer/HostGAPlugin from elevated callers; another destination) with no rule sets, a key latched in 70% of the cases, carrying 0-3 client-supplied copies of x-ms-azure-host-claims / -date / -authorization in random letter case, at random positions among the other headers, with values {the opposite or same elevation claim in two spellings, an old and a future RFC 1123 date, a well-formed authorization value with a random MAC, junk}. oracle on the raw bytes captured at the mock host: exactly one claims line whose value states the record's elevation; exactly one date line, RFC 1123, within 5 s of the harness clock; if a key is latched and the request is not signature-exempt exactly one authorization line, none of the client's values, and its MAC verifies (C04). non-trivial: at least one spoofed copy; distinct by hash of the case.";
-pub const RULE_C04: &str = "end-to-end half: the same rig with a key always latched and no spoofed headers; query strings from C04's colliding pools, header sets, bodies as Content-Length or chunked. oracle: the mock's raw bytes are parsed by the independent HTTP reader; exactly one authorization line 'Azure-HMAC-SHA256 <guid> <64 hex>'; HMAC_ref(key, canon_ref(received method, de-framed body, received header lines, received target)) equals it for one of the two admissible parameter orders (a transport-generated 'content-length: 0' on a body-less request may be in or out: counted as underspecified). Exempt uploads (PUT /vmAgentLog, POST /machine/?comp=telemetrydata, any letter case) must carry no proxy signature. non-trivial: >= 2 parameters or an escaped/valueless one, or >= 2 client headers, or a body with a line feed; distinct by hash of the case.";
+pub const RULE_C04: &str = "end-to-end half: the same rig with a key always latched and no spoofed headers; query strings from C04's colliding pools, header sets, bodies as Content-Length or chunked. oracle: the mock's raw bytes are parsed by the independent HTTP reader; exactly one authorization line 'Azure-HMAC-SHA256 <guid> <64 hex>'; HMAC_ref(key, canon_ref(received method, de-framed body, received header lines, received target)) equals it for one of the two admissible parameter orders (a transport-generated 'content-length: 0' on a body-less request may be in or out: counted as underspecified). In 20% of the cases the request is then sent twice on one keep-alive connection with the latched key replaced in between: the second one must announce and verify under the new key. Exempt uploads (PUT /vmAgentLog, POST /machine/?comp=telemetrydata, any letter case) must carry no proxy signature. non-trivial: >= 2 parameters or an escaped/valueless one, or >= 2 client headers, or a body with a line feed; distinct by hash of the case.";
 
 fn days_from_civil(y: i64, m: i64, d: i64) -> i64 {
     let y = if m <= 2 { y - 1 } else { y };
@@ -287,6 +290,38 @@ pub fn eval(rig: &Rig, case: &Case, stats: &mut Stats, c04_focus: bool) -> Outco
                 return Outcome::fail("signing:exempt-request-carries-proxy-authorization", String::from_utf8_lossy(a).to_string());
             }
         }
+    }
+    // ---- the latched key is replaced while a keep-alive connection stays open ----
+    if let (Some((g2, k2)), Some((g1, k1)), false) = (&case.rotate_to, &case.key, exempt) {
+        stats.class("key-replaced-on-an-open-keep-alive-connection");
+        let plain = gen::GReq { headers: case.req.headers.clone(), ..case.req.clone() };
+        let wire = plain.wire(&target, &[]);
+        let mut conn = match rig.open(Some(rig.entry_of(&case.rec)), 0) {
+            Ok(c) => c,
+            Err(e) => return Outcome::fail("rig:cannot-open-connection", e),
+        };
+        for (round, (g, k)) in [(g1, k1), (g2, k2)].into_iter().enumerate() {
+            if round == 1 {
+                rig.set_key(Some((g.as_str(), k.as_str())));
+            }
+            let _ = rig.mock.take_requests();
+            if let Err(e) = conn.send(&wire) {
+                return Outcome::fail("relay:keep-alive-connection-lost", e.to_string());
+            }
+            if let Err(e) = conn.read(&plain.method, std::time::Duration::from_secs(20)) {
+                return Outcome::fail("relay:keep-alive-connection-lost", format!("request {} on the connection: {:?}", round + 1, e));
+            }
+            let seen = rig.mock.take_requests();
+            if seen.len() != 1 {
+                return Outcome::fail("relay:authorised-request-not-relayed-once", format!("{} requests at the host for request {} of the keep-alive connection", seen.len(), round + 1));
+            }
+            let client_framing = !(plain.body.is_empty() && plain.bare_empty);
+            // the host knows the key that is latched NOW, and only that one
+            if let Err((sig, detail)) = verify_received(&seen[0], &|guid| if guid == g { Some(k.clone()) } else { None }, client_framing) {
+                return Outcome::fail(if round == 1 { "signing:request-after-key-replacement-not-signed-with-the-latched-key".to_string() } else { sig }, detail);
+            }
+        }
+        crate::rawhttp::close_abortive(conn.stream);
     }
     Outcome::Pass
 }
